@@ -39,6 +39,13 @@ func init() {
 	})
 	// C13 (send side): a message split into more than 256 frames
 	wrap("C13", func(c *ctx) {
+		// the same writer reused for control frames while the message state says "compressed"
+		for _, side := range []byte{1 | 4, 2 | 4} {
+			for _, op := range []int{9, 10, 8, 2} {
+				runWH(c, "WHX", wcfg{"s125", side, 1, "1"}, fmt.Sprintf("w20/1,fl,ro%d,w5/2,fl,ro1,w300/3,fl", op), "-")
+				runWH(c, "WHX", wcfg{"s5", side, 2, "1"}, fmt.Sprintf("w3/1,w9/4,ro%d,w2/2,fl", op), "-")
+			}
+		}
 		var ops []string
 		for i := 0; i < 300; i++ {
 			ops = append(ops, fmt.Sprintf("w2/%d", i%200))
@@ -49,7 +56,22 @@ func init() {
 			runWH(c, "WHX", wcfg{"s1", side, 2, "-"}, strings.Join(ops, ","), "-")
 		}
 	})
+	replayers["WRF"] = func(c *ctx, in []string) {
+		var n, k int
+		fmt.Sscan(in[1], &n)
+		fmt.Sscan(in[2], &k)
+		wrf(c, parseWcfg(in[0]), n, k)
+	}
 	wrap("C06", func(c *ctx) {
+		for _, ctor := range []string{"s5", "s125", "u200", "d0"} {
+			for _, side := range []byte{1, 2} {
+				for _, n := range []int{1, 4, 5, 6, 130, 300} {
+					for _, k := range []int{0, 1, n / 2, n} {
+						wrf(c, wcfg{ctor, side, 2, "-"}, n, k)
+					}
+				}
+			}
+		}
 		var ops []string
 		for i := 0; i < 270; i++ {
 			ops = append(ops, fmt.Sprintf("w3/%d", i%200))
@@ -419,6 +441,21 @@ func dbd2(c *ctx, variant int) {
 		b = rb.class
 	}
 	c.emit("DBD2 %d -> %s %s", variant, a, b)
+}
+
+// WRF: ReadFrom a source that FAILS after k of n bytes, then Flush: what was accepted must still go out
+func wrf(c *ctx, cfg wcfg, n, k int) {
+	dst := newRecWriter()
+	w, pan := newWriter(dst, cfg)
+	if pan {
+		return
+	}
+	data := patBytes(n, 3)
+	src := newChunkReader(data[:k], "r3", "fail")
+	m, err := w.ReadFrom(src)
+	buffered := w.Buffered()
+	ferr := w.Flush()
+	c.emit("WRF %s %d %d -> %d %s %d %s %s", cfg.tok(), n, k, m, werrClass(err), buffered, werrClass(ferr), hxList(dst.calls))
 }
 
 func c14Params(s string) wsflate.Parameters {
